@@ -73,9 +73,14 @@ def run_session(ctx, driver, files, spec, timeout=60.0):
 def _run_session(ctx, driver, files, spec, timeout=60.0):
     files = to_bytes(files)
     if driver == "plugin":
-        reset_tree(ctx.world, files)
+        # "$W" in a file stands for the absolute path of the world directory (absolute storage-dir etc.);
+        # it is substituted on the way in and out so that logs and digests do not depend on the scratch path
+        wb = ctx.world.encode()
+        reset_tree(ctx.world, {k: (v.replace(b"$W", wb) if k.endswith(".toml") else v) for k, v in files.items()})
         res = drivers.run_plugin(ctx.world, spec, ctx.scratch, timeout)
-        new = read_tree(ctx.world)
+        new = {k: (v.replace(wb, b"$W") if k.endswith(".toml") else v) for k, v in read_tree(ctx.world).items()}
+        if res.get("out"):
+            res["out"] = res["out"].replace(ctx.world, "$W")
         ctx.session(res)
         return new, res
     if driver == "inline":
